@@ -98,9 +98,16 @@ def run_c12(run_, rng, tier, exe):
         names = dict(old="o/" + rng.choice(["one", "d/one"]), new="n/" + rng.choice(["two", "d/two"]), index="i/" + rng.choice(["three", "d/three"]))
         # only the two header names (their first occurrences), never the same bytes inside hunk lines
         text = sec["text"].replace(b"a/t", ("x/" + names["old"]).encode(), 1).replace(b"b/t", ("x/" + names["new"]).encode(), 1)
+        if rng.random() < 0.3:
+            # '---' and '+++' carry one and the same name (cvs diff, rcsdiff): when it does not exist the Index name is next
+            names["new"] = names["old"]
+            text = sec["text"].replace(b"a/t", ("x/" + names["old"]).encode(), 1).replace(b"b/t", ("x/" + names["old"]).encode(), 1)
         text = ("Index: x/%s\n" % names["index"]).encode() + text
         tree = {}
         present = [k for k in ("old", "new", "index") if rng.random() < 0.6]
+        if names["new"] == names["old"]:
+            present = [k for k in present if k != "new"] + (["new"] if "old" in present else [])
+            present = [k for k in ("old", "new", "index") if k in present]
         strip = rng.choice([1, 1, 2, 4])
         for k in present:
             scen.add_parents(tree, names[k]); tree[names[k]] = ("R", 0o644, emit.file_bytes(sec["a"]))
@@ -117,9 +124,9 @@ def run_c12(run_, rng, tier, exe):
 
     def judge(s, r):
         after = tree_no_meta(r["tree"])
-        changed = [k for k in ("old", "new", "index") if s["names"][k] in s["tree"] and after.get(s["names"][k]) != s["tree"][s["names"][k]]]
+        changed = sorted(set(s["names"][k] for k in ("old", "new", "index") if s["names"][k] in s["tree"] and after.get(s["names"][k]) != s["tree"][s["names"][k]]))
         if s["strip"] == 1:
-            want = [k for k in ("old", "new", "index") if k in s["present"]][:1]
+            want = [s["names"][k] for k in ("old", "new", "index") if k in s["present"]][:1]
         else:
             want = []     # after stripping more, the names no longer point at the files (or have too few components)
         if changed != want:
@@ -128,6 +135,22 @@ def run_c12(run_, rng, tier, exe):
             return "/dev/null was opened"
         return None
     _, b2, m2 = l2_family(run_, exe, scns, judge, cls=lambda s, r: "candidates " + "+".join(s["present"]) + " p%d" % s["strip"])
+    # whether a name exists is asked when it is needed, not remembered: a file that an earlier patch of the run has created (its
+    # name was looked up while it was missing) is found by a later patch that names it ("diff -Nru v0 v1; diff -Nru v1 v2")
+    sf = [scen.same_file_scenario(rng, opts=dict(rng.choice([{}, {}, {"b": 1}])), git=False) for _ in range(40 if q else 600)]
+    def judge_sf(s, r):
+        if r["exit"] != 0:
+            return "a stream whose later patches name files its earlier patches created or changed (%s): exit %d" % (s["order"], r["exit"])
+        after = tree_no_meta(r["tree"]); want = {}
+        for x in s["secs"]:
+            want[x["path"]] = None if x["kind"] == "delete" else emit.file_bytes(x["b"])
+        for p_, w_ in want.items():
+            got_ = after.get(p_)
+            if (got_ is None) != (w_ is None) or (got_ is not None and got_[2] != w_):
+                return "%s: after the run %s does not hold what the last patch for it leaves" % (s["order"], p_)
+        return None
+    _, b2s, m2s = l2_family(run_, exe, sf, judge_sf, cls=lambda s, r: "same file " + s["order"])
+    b2 += b2s; m2 += m2s
     # a file that comes into being takes the name of the side that exists afterwards: the new name for a creating patch, the old
     # name for a deleting patch applied with -R (old and new names differ, as between two trees)
     cr = []
@@ -381,7 +404,29 @@ def run_c13(run_, rng, tier, exe):
         keep = (h1["ns"] - 1 if h1["nc"] else h1["ns"]) + h1["nc"]
         s0["tree"]["t"] = ("R", 0o644, emit.file_bytes(b_[:keep] + gen.drift(rng, b_[keep:], strength=0.9)))
         scns.append(s0)
+    # targets that are refused as a whole (read-only under --read-only=fail, not a regular file): every hunk goes to the reject
+    # file, in the form asked for
+    import l2props
+    refs = [s0 for s0 in l2props.refusal_scenarios(rng, 60 if q else 800) if s0["refusal"] in ("rofail", "dir", "fifo")]
+    for s0 in refs:
+        s0["opts"].update(rng.choice([{}, {"rf": "context"}, {"rf": "unified"}, {"rf": "context"}]))
+    def judge_ref(s, r):
+        sec = s["secs"][0]
+        rej = r["tree"].get(sec["path"] + ".rej")
+        if rej is None:
+            return None
+        want_fmt = s["opts"].get("rf") or ("unified" if sec["fmt"] == "unified" else "context")
+        is_ctx = rej[2].startswith(b"*** ")
+        if (want_fmt == "context") != is_ctx:
+            return "refused target (%s): the reject file is written in %s form, %s form was %s" % (s["refusal"], "context" if is_ctx else "unified", want_fmt,
+                   "asked for with --reject-format" if s["opts"].get("rf") else "due")
+        n_ = rej[2].count(b"\n***************\n") if is_ctx else len(re.findall(rb"^@@ ", rej[2], flags=re.M))
+        if n_ != len(sec["hs"]):
+            return "refused target (%s): %d hunks in the reject file, the patch has %d" % (s["refusal"], n_, len(sec["hs"]))
+        return None
+    _, b9, m9 = l2_family(run_, exe, refs, judge_ref, cls=lambda s, r: "refusal %s rejects exit %d" % (s["refusal"], r["exit"]))
     res, b2, m2 = l2_family(run_, exe, scns, lambda s, r: None, cls=lambda s, r: "rejects exit %d" % r["exit"])
+    b2 = b2 + b9; m2 = m2 + m9
     parse_cases, who = [], []
     for i, (s, r) in enumerate(zip(scns, res)):
         for k_, x_ in enumerate(s["secs"]):
@@ -538,11 +583,30 @@ def run_c14(run_, rng, tier, exe):
         else:
             text = b"Index: b/f\n" + emit.emit_normal(ops)
         mode = rng.choice(["native", "lf", "crlf", "keep"])
+        if rng.random() < 0.3:
+            # the marker as a diff run under another locale words it: what counts is the backslash
+            text = text.replace(b"\\ No newline at end of file", rng.choice([b"\\ Kein Zeilenumbruch am Dateiende.", b"\\ Pas de fin de ligne a la fin du fichier", b"\\"]))
         scns.append(dict(tree={"f": ("R", 0o644, emit.file_bytes(a2)), "p.diff": ("R", 0o644, text)}, opts={"p": 1, "i": "p.diff", "nl": mode, "F": 0},
                          umask=0o022, want=applyc.lines_bytes(mode, b2_), fmt=fmt, mode=mode))
+    # git streams in which an entry without hunks (a pure rename, a copy, a change of mode) stands in front of another entry: the
+    # file it names is written through the same conversion as every other
+    for _ in range(60 if q else 900):
+        mode = rng.choice(["lf", "crlf", "native", "keep"])
+        g = [(gen.rand_text(rng, True) + str(i_), rng.choice("LC")) for i_ in range(rng.randint(1, 6))]
+        if rng.random() < 0.3:
+            g[-1] = (g[-1][0], "N")
+        kind = rng.choice(["rename", "copy", "mode"])
+        first = (emit.emit_git("g", "g2", [], kind=kind) if kind != "mode" else emit.emit_git("g", "g", [], kind="change", old_mode="100644", new_mode="100755"))
+        fl = [("k%d" % i_, "L") for i_ in range(4)]
+        ops = [(" ", l) for l in fl]; ops[1] = ("-", fl[1]); ops.insert(2, ("+", ("k1x", "L")))
+        second = emit.emit_git("h", "h", gen.hunks_from_ops(ops, 1), kind="change")
+        order = rng.choice(["first", "first", "last"])
+        text = first + second if order == "first" else second + first
+        scns.append(dict(tree={"g": ("R", 0o644, emit.file_bytes(g)), "h": ("R", 0o644, emit.file_bytes(fl)), "p.diff": ("R", 0o644, text)}, opts={"p": 1, "i": "p.diff", "nl": mode, "F": 0},
+                         umask=0o022, want=applyc.lines_bytes(mode, g), fmt="git %s without hunks (%s)" % (kind, order), mode=mode, at="g" if kind == "mode" else "g2"))
 
     def judge(s, r):
-        got = r["tree"].get("f")
+        got = r["tree"].get(s.get("at", "f"))
         if r["exit"] != 0:
             return "exit %d applying a %s diff under --newline-output=%s" % (r["exit"], s["fmt"], s["mode"])
         if got is None or got[2] != s["want"]:
@@ -734,6 +798,43 @@ def run_c20(run_, rng, tier, exe):
         return None
     _, bdd, mdd = l2_family(run_, exe, dscn, judge_ddel, cls=lambda s, r: "-D deleting patch exit %d" % r["exit"])
     bad += bdd; mism += mdd
+    # whole program, through the option parser: symbols as projects write them (digits, underscores, one letter), plain changes;
+    # with -l on a target whose blanks are not the patch's: the old half of the merge is the file's lines, not the patch's
+    wsc = []
+    for _ in range(120 if q else 2000):
+        sym = rng.choice(["SYM", "HAVE_UTF8_V2", "WIN32", "_x1", "A", "__GNUC__", "a0b1"])
+        sec = scen.section(rng, rng.choice(["dc", "dcd/dc"]), kind="change", fmt=rng.choice(["unified", "context", "unified", "git"]), width=rng.choice([1, 2, 3]), nonl=False)
+        if b"#" in sec["text"]:
+            continue
+        o = {"D": sym}
+        s0 = scen.base_scenario(rng, [sec], opts=o)
+        tgt = list(sec["a"])
+        if rng.random() < 0.4:
+            o["l"] = 1
+            tgt = [((t.replace(" ", "\t ") if rng.random() < 0.6 else t) + (" " if t and rng.random() < 0.3 else ""), nl) for t, nl in tgt]
+            k_, m_, d_ = s0["tree"][sec["path"]]; s0["tree"][sec["path"]] = (k_, m_, emit.file_bytes(tgt))
+            s0["opts"]["l"] = 1
+        s0["A"] = [t for t, nl in tgt]; s0["B"] = [t for t, nl in sec["b"]]; s0["sym"] = sym
+        wsc.append(s0)
+
+    def judge_wsc(s, r):
+        cur = tree_no_meta(r["tree"]).get(s["secs"][0]["path"])
+        if r["exit"] != 0:
+            return "-D %s with a patch that fits: exit status %d" % (s["sym"], r["exit"])
+        ls_ = cur[2].decode("latin-1").split("\n")
+        if ls_ and ls_[-1] == "":
+            ls_.pop()
+        new = cpp_eval(ls_, True, s["sym"]); old = cpp_eval(ls_, False, s["sym"])
+        if new is None or old is None:
+            return "-D %s output has unbalanced conditionals" % s["sym"]
+        if old != s["A"]:
+            return "-D %s%s: evaluated with the symbol undefined the output is not the original file, byte for byte" % (s["sym"], " -l" if s["opts"].get("l") else "")
+        norm = (lambda x: [re.sub(r"[ \t]+", " ", l_).rstrip() for l_ in x]) if s["opts"].get("l") else (lambda x: x)
+        if norm(new) != norm(s["B"]):
+            return "-D %s%s: evaluated with the symbol defined the output is not the new version" % (s["sym"], " -l" if s["opts"].get("l") else "")
+        return None
+    _, bws, mws = l2_family(run_, exe, wsc, judge_wsc, cls=lambda s, r: "-D %s%s exit %d" % ("sym with digits" if any(ch.isdigit() for ch in s["sym"]) else "sym", " -l" if s["opts"].get("l") else "", r["exit"]))
+    bad += bws; mism += mws
     # the Gallina evaluator and the Python one must agree on every output seen (the oracle of this check is the specification
     # of the theorem, not a second opinion)
     gres = run_model([g[1] for g in geval])
